@@ -123,6 +123,10 @@ func (m *Module) Evaluation(
 	ctx.SetFrame(nextFrame)
 	ctx.SetClass(class)
 
+	// a class or module body starts public, whatever section encloses it
+	ctx.EndPrivate()
+	ctx.EndProtected()
+
 	for {
 		nextT, err := p.Read()
 		if err != nil {
